@@ -937,7 +937,7 @@ Proof.
   intros Hok HIeq Hp Hapok Hst Hpp Hlo Hu.
   assert (Hp' : rl_prev r <= t) by lia.
   unfold sys_step. cbn [N.to_nat nth_error s_bars].
-  destruct o as [d|d|q| |m|l| ].
+  destruct o as [d|d|q| |m|l|px| ].
   - destruct (via_ap_std I r b (with_pos b (wadd64 (m_pos b) d)) t) as (r' & b' & re & fr & H & H1 & H2 & H3 & H4 & H5 & H6 & H7 & H8 & H9);
       cbn [with_pos m_ap]; try assumption; try lia.
     exists r', b', re, fr. split; [exact H|]. cbn [with_pos m_ap] in *. splits; try assumption; try (rewrite H7; reflexivity).
@@ -962,6 +962,11 @@ Proof.
     rewrite Hreq. exists r', b1, true, fr. split; [reflexivity|].
     splits; try assumption; try reflexivity; try (cbn [b1 m_ap]; lia).
     intros Hn. destruct (Hnone Hn) as (Hr & Hc0 & Hlt). split; [exact Hr|]. left. split; assumption.
+  - destruct (request_std I r b b t Hok HIeq Hp') as (r' & fr & Hreq & Hok' & HI' & Hp1 & Hfr & Hnone).
+    rewrite Hreq. exists r', b, true, fr. split; [reflexivity|].
+    splits; try assumption; try lia.
+    + destruct b; reflexivity.
+    + intros Hn. destruct (Hnone Hn) as (Hr & Hc0 & Hlt). split; [exact Hr|]. left. split; assumption.
   - set (b1 := mk_mbar 0 (m_len b) (m_msg b) (ap_reset (m_ap b) t) (m_shown b)).
     destruct (request_std I r b b1 t Hok HIeq Hp') as (r' & fr & Hreq & Hok' & HI' & Hp1 & Hfr & Hnone).
     rewrite Hreq. exists r', b1, false, fr. split; [reflexivity|].
